@@ -601,6 +601,9 @@ func (d *dischargeCtx) dischargeIndex(f *ssa.Function, in ssa.Instruction, base,
 				return fmt.Sprintf("len(%s) > %d on every path (local guards / the builtin's checker)", bp, k)
 			}
 		}
+		if n, why := d.callersMinLen(f, base, 0); n > int(k) {
+			return fmt.Sprintf("len(%s) > %d at every call of %s (%s)", bp, k, f.Name(), why)
+		}
 		// string non-empty fact: s != "" ⇒ len(s) ≥ 1
 		if k == 0 {
 			for _, ec := range factsAt(in) {
@@ -609,6 +612,29 @@ func (d *dischargeCtx) dischargeIndex(f *ssa.Function, in ssa.Instruction, base,
 					return "dominated by a non-empty test of the string"
 				}
 			}
+		}
+	}
+	// the last-but-k element of a container known to hold at least k elements: len(x)-k with len(x) ≥ k ≥ 1
+	if bo, ok := idx.(*ssa.BinOp); ok && bo.Op == token.SUB {
+		if k, isC := constInt(bo.Y); isC && k >= 1 {
+			if lp, isLen := lenOf(bo.X); isLen && lp == bp {
+				n := 0
+				if st, reached := d.flow(f)[in.Block()]; reached {
+					n = minLen(st, bp)
+				}
+				if n < int(k) {
+					n, _ = d.callersMinLen(f, base, 0)
+				}
+				if n >= int(k) {
+					return fmt.Sprintf("index len(%s)-%d with len(%s) ≥ %d on every path", bp, k, bp, n)
+				}
+			}
+		}
+	}
+	// a slice made with the length of another container, indexed below that container's length
+	if ms, ok := base.(*ssa.MakeSlice); ok {
+		if lp, isLen := lenOf(ms.Len); isLen && nonNegative(in, idx) && belowLen(in, idx, lp) {
+			return fmt.Sprintf("the slice was made with len(%s) elements and 0 ≤ index < len(%s) holds here", lp, lp)
 		}
 	}
 	// range loop index
@@ -998,7 +1024,7 @@ func shapeInvariant(t *Tree, call *ssa.Call, s2k map[string]int64) string {
 					return
 				}
 				n++
-				if kindFactPath(t, st, path(st.Val), want) == "" {
+				if kindFactPath(t, st, path(st.Val), want) == "" && !kindFactFromValidator(t, st, st.Val, want) {
 					ok = false
 				}
 			})
@@ -1419,6 +1445,9 @@ func panicRules(c *Ctx, scope, skip map[*ssa.Function]bool, d *dischargeCtx, s2k
 // callersBound: base and idx are parameters of the unexported function f, neither is reassigned, and at every call
 // site of f in the module the corresponding arguments satisfy 0 ≤ idx < len(base) by the caller's own facts.
 func (d *dischargeCtx) callersBound(f *ssa.Function, in ssa.Instruction, base, idx ssa.Value) string {
+	if why := d.closureBound(f, base, idx); why != "" {
+		return why
+	}
 	pb, ok1 := base.(*ssa.Parameter)
 	pi, ok2 := idx.(*ssa.Parameter)
 	if !ok1 || !ok2 || f.Object() == nil || f.Object().Exported() {
@@ -1455,4 +1484,248 @@ func isNillable(t types.Type) bool {
 		return true
 	}
 	return false
+}
+
+// callersMinLen: base is rooted in a parameter of the unexported function f that f never reassigns (p, or a field
+// path p.A.B); the least length of that container over all call sites of f in the module, each judged by the
+// caller's own length state and non-empty facts — or, where the caller merely hands on its own parameter, by the
+// caller's callers (three levels).
+func (d *dischargeCtx) callersMinLen(f *ssa.Function, base ssa.Value, depth int) (int, string) {
+	if depth > 3 || f.Object() == nil || f.Object().Exported() {
+		return 0, ""
+	}
+	root, suffix := paramRoot(base)
+	if root == nil || root.Parent() != f {
+		return 0, ""
+	}
+	kp := -1
+	for k, p := range f.Params {
+		if p == root {
+			kp = k
+		}
+	}
+	sites := callersOf(d.t)[f]
+	if kp < 0 || len(sites) == 0 {
+		return 0, ""
+	}
+	best, via := 1<<30, ""
+	for _, cs := range sites {
+		g := cs.Parent()
+		if kp >= len(cs.Call.Args) || g == nil {
+			return 0, ""
+		}
+		arg := cs.Call.Args[kp]
+		ap := path(arg) + suffix
+		n := 0
+		if st, reached := d.flow(g)[cs.Block()]; reached {
+			n = minLen(st, ap)
+		}
+		if n == 0 && suffix == "" {
+			for _, ec := range factsAt(cs) {
+				s := ec.String()
+				if s == ap+` != ""` || s == `!(`+ap+` == "")` {
+					n = 1
+				}
+			}
+		}
+		if n == 0 {
+			// the caller hands on its own parameter (or a field path of it)
+			if r2, _ := paramRoot(arg); r2 != nil {
+				n, _ = d.callersMinLen(g, fieldPathValue{arg, suffix}, depth+1)
+			}
+		}
+		if n == 0 {
+			return 0, ""
+		}
+		if n < best {
+			best, via = n, g.Name()
+		}
+	}
+	return best, fmt.Sprintf("%d call site(s), the least from %s", len(sites), via)
+}
+
+// fieldPathValue lets callersMinLen recurse on "arg + field suffix" without materialising an SSA value.
+type fieldPathValue struct {
+	ssa.Value
+	suffix string
+}
+
+// paramRoot: v is a parameter or a chain of field loads from one; returns the parameter and the field suffix
+// (".Param"); nil when the parameter is spilled and reassigned.
+func paramRoot(v ssa.Value) (*ssa.Parameter, string) {
+	suffix := ""
+	if fp, ok := v.(fieldPathValue); ok {
+		v, suffix = fp.Value, fp.suffix
+	}
+	for i := 0; i < 6; i++ {
+		switch x := v.(type) {
+		case *ssa.Parameter:
+			return x, suffix
+		case *ssa.UnOp:
+			if x.Op != token.MUL {
+				return nil, ""
+			}
+			if fa, ok := x.X.(*ssa.FieldAddr); ok {
+				suffix = "." + fieldName(fa) + suffix
+				v = fa.X
+				continue
+			}
+			if a, ok := x.X.(*ssa.Alloc); ok {
+				if p := spilledParam(a); p != nil {
+					return p, suffix
+				}
+			}
+			return nil, ""
+		case *ssa.Field:
+			suffix = "." + fieldNameV(x) + suffix
+			v = x.X
+			continue
+		default:
+			return nil, ""
+		}
+	}
+	return nil, ""
+}
+
+// kindFactFromValidator: v is a field path of result #k of a validation helper h(…) (value, ok) whose ok was tested
+// true on the way to `at`, and at every return of h that can yield ok=true the same field path of the returned
+// value is known to have NodeType == want by h's own dominating tests.
+func kindFactFromValidator(t *Tree, at ssa.Instruction, v ssa.Value, want int64) bool {
+	suffix := ""
+	var ex *ssa.Extract
+	for i := 0; i < 6 && ex == nil; i++ {
+		switch x := v.(type) {
+		case *ssa.UnOp:
+			fa, ok := x.X.(*ssa.FieldAddr)
+			if x.Op != token.MUL || !ok {
+				return false
+			}
+			suffix = "." + fieldName(fa) + suffix
+			v = fa.X
+		case *ssa.Field:
+			suffix = "." + fieldNameV(x) + suffix
+			v = x.X
+		case *ssa.Extract:
+			ex = x
+		default:
+			return false
+		}
+	}
+	if ex == nil {
+		return false
+	}
+	call, ok := ex.Tuple.(*ssa.Call)
+	if !ok {
+		return false
+	}
+	h := call.Call.StaticCallee()
+	if h == nil || len(h.Blocks) == 0 || h.Signature.Results().Len() != 2 {
+		return false
+	}
+	m := 1 - ex.Index
+	tested := false
+	for _, ec := range factsAt(at) {
+		if e2, isE := ec.Cond.(*ssa.Extract); isE && e2.Tuple == ex.Tuple && e2.Index == m && ec.Pol {
+			tested = true
+		}
+	}
+	if !tested {
+		return false
+	}
+	okAll, n := true, 0
+	allInstrs(h, func(in ssa.Instruction) {
+		ret, isR := in.(*ssa.Return)
+		if !isR || len(ret.Results) != 2 {
+			return
+		}
+		if c, isC := ret.Results[m].(*ssa.Const); isC && c.Value != nil && c.Value.Kind() == constant.Bool && !constant.BoolVal(c.Value) {
+			return
+		}
+		n++
+		if kindFactPath(t, ret, path(ret.Results[ex.Index])+suffix, want) == "" {
+			okAll = false
+		}
+	})
+	return okAll && n > 0
+}
+
+// closureBound: f is a local closure, idx one of its parameters, base a field path of a variable it captures from
+// the enclosing function; at every call of the closure the index argument is within the length the enclosing
+// function knows for that container at the call.
+func (d *dischargeCtx) closureBound(f *ssa.Function, base, idx ssa.Value) string {
+	if f.Parent() == nil {
+		return ""
+	}
+	pi, ok := idx.(*ssa.Parameter)
+	if !ok {
+		return ""
+	}
+	ki := -1
+	for k, p := range f.Params {
+		if p == pi {
+			ki = k
+		}
+	}
+	// base = <freevar>[.field…]; a by-reference capture is a pointer to the variable
+	suffix := ""
+	v := base
+	var fv *ssa.FreeVar
+	for i := 0; i < 6 && fv == nil; i++ {
+		switch x := v.(type) {
+		case *ssa.FreeVar:
+			fv = x
+		case *ssa.UnOp:
+			if x.Op != token.MUL {
+				return ""
+			}
+			if fa, ok := x.X.(*ssa.FieldAddr); ok {
+				suffix = "." + fieldName(fa) + suffix
+				v = fa.X
+			} else {
+				v = x.X
+			}
+		default:
+			return ""
+		}
+	}
+	kf := -1
+	for k, x := range f.FreeVars {
+		if x == fv {
+			kf = k
+		}
+	}
+	sites := callersOf(d.t)[f]
+	if fv == nil || ki < 0 || kf < 0 || len(sites) == 0 {
+		return ""
+	}
+	for _, cs := range sites {
+		mc, ok := cs.Call.Value.(*ssa.MakeClosure)
+		g := cs.Parent()
+		if !ok || kf >= len(mc.Bindings) || ki >= len(cs.Call.Args) || g != f.Parent() {
+			return ""
+		}
+		b := mc.Bindings[kf]
+		bp := path(b)
+		if al, isA := b.(*ssa.Alloc); isA {
+			p := spilledParam(al)
+			if p == nil {
+				return ""
+			}
+			bp = p.Name()
+		}
+		ai := cs.Call.Args[ki]
+		okSite := false
+		if k, isC := constInt(ai); isC && k >= 0 {
+			if st, reached := d.flow(g)[cs.Block()]; reached && minLen(st, bp+suffix) > int(k) {
+				okSite = true
+			}
+		}
+		if !okSite && nonNegative(cs, ai) && belowLen(cs, ai, bp+suffix) {
+			okSite = true
+		}
+		if !okSite {
+			return ""
+		}
+	}
+	return fmt.Sprintf("every call of the closure (%d) passes an index within the length %s knows for the captured container", len(sites), f.Parent().Name())
 }
